@@ -36,14 +36,13 @@ package jsonpath
 
 //@ func (*syntaxSlicePositiveStepSubscript).getIndexes
 //@   props C11 C03 C01
-//@   requires srcLength >= 0 && s != nil && s.start != nil && s.end != nil && s.step != nil
-//@   ensures inrange: forall k :: 0 <= k && k < len(ret) ==> 0 <= ret[k] && ret[k] < srcLength
+//@   implements syntaxSubscript.getIndexes
+//@   unfold WFsub(this) ==> WFposDef(s)
 //@   ensures empty: (s.step.number <= 0 || pyLoP(s, srcLength) >= pyHiP(s, srcLength)) ==> len(ret) == 0
 //@   ensures first: (s.step.number > 0 && pyLoP(s, srcLength) < pyHiP(s, srcLength)) ==> len(ret) >= 1 && ret[0] == pyLoP(s, srcLength)
 //@   ensures succ: forall k :: 0 <= k && k + 1 < len(ret) ==> ret[k+1] == ret[k] + s.step.number
 //@   ensures bounded: forall k :: 0 <= k && k < len(ret) ==> ret[k] < pyHiP(s, srcLength)
 //@   ensures maximal: len(ret) >= 1 ==> ret[len(ret)-1] + s.step.number >= pyHiP(s, srcLength)
-//@   ensures fresh: fresh(ret)
 //@   loop 1 invariant 0 <= index && index <= srcLength && loopStart <= i && 0 <= loopStart && loopEnd <= srcLength
 //@   loop 1 invariant index == 0 ==> i == loopStart
 //@   loop 1 invariant index > 0 ==> result[0] == loopStart && i == result[index-1] + s.step.number
@@ -72,14 +71,13 @@ package jsonpath
 
 //@ func (*syntaxSliceNegativeStepSubscript).getIndexes
 //@   props C11 C03 C01
-//@   requires srcLength >= 0 && s != nil && s.start != nil && s.end != nil && s.step != nil
-//@   ensures inrange: forall k :: 0 <= k && k < len(ret) ==> 0 <= ret[k] && ret[k] < srcLength
+//@   implements syntaxSubscript.getIndexes
+//@   unfold WFsub(this) ==> WFnegDef(s)
 //@   ensures empty: (s.step.number >= 0 || pyLoN(s, srcLength) <= pyHiN(s, srcLength)) ==> len(ret) == 0
 //@   ensures first: (s.step.number < 0 && pyLoN(s, srcLength) > pyHiN(s, srcLength)) ==> len(ret) >= 1 && ret[0] == pyLoN(s, srcLength)
 //@   ensures succ: forall k :: 0 <= k && k + 1 < len(ret) ==> ret[k+1] == ret[k] + s.step.number
 //@   ensures bounded: forall k :: 0 <= k && k < len(ret) ==> ret[k] > pyHiN(s, srcLength)
 //@   ensures maximal: len(ret) >= 1 ==> ret[len(ret)-1] + s.step.number <= pyHiN(s, srcLength)
-//@   ensures fresh: fresh(ret)
 //@   loop 1 invariant 0 <= index && index <= srcLength && loopStart >= i && loopStart <= srcLength - 1 && loopEnd >= 0 - 1
 //@   loop 1 invariant index == 0 ==> i == loopStart
 //@   loop 1 invariant index > 0 ==> result[0] == loopStart && i == result[index-1] + s.step.number
@@ -90,18 +88,16 @@ package jsonpath
 
 //@ func (*syntaxIndexSubscript).getIndexes
 //@   props C11 C03 C01
-//@   requires srcLength >= 0 && i != nil
+//@   implements syntaxSubscript.getIndexes
+//@   unfold WFsub(this) ==> WFindexDef(i)
 //@   ensures front: (0 <= i.number && i.number < srcLength) ==> len(ret) == 1 && ret[0] == i.number
 //@   ensures back: (i.number < 0 && i.number + srcLength >= 0) ==> len(ret) == 1 && ret[0] == i.number + srcLength
 //@   ensures none: (i.number >= srcLength || i.number + srcLength < 0) ==> len(ret) == 0
-//@   ensures inrange: forall k :: 0 <= k && k < len(ret) ==> 0 <= ret[k] && ret[k] < srcLength
-//@   ensures fresh: fresh(ret)
 
 //@ func (*syntaxWildcardSubscript).getIndexes
 //@   props C11 C03 C01
-//@   requires srcLength >= 0
+//@   implements syntaxSubscript.getIndexes
 //@   ensures all: len(ret) == srcLength && forall k :: 0 <= k && k < srcLength ==> ret[k] == k
-//@   ensures fresh: fresh(ret)
 //@   loop 1 invariant 0 <= index && index <= srcLength
 //@   loop 1 invariant forall k :: 0 <= k && k < index ==> result[k] == k
 //@   loop 1 decreases srcLength - index
@@ -141,13 +137,13 @@ package jsonpath
 
 // WF of the syntax tree: WFnode(v) ==> WFnodeDef(v), unfolded once per method for its receiver
 // (clause `unfold`), never by a quantified axiom (that would be a matching loop along `next`).
-//@ spec WFunionAt(u *syntaxUnionQualifier) bool = WFbasic(u.syntaxBasicNode) && errRT(u.syntaxBasicNode) && (forall k {u.subscripts[k]} :: 0 <= k && k < len(u.subscripts) ==> WFsub(u.subscripts[k]))
+//@ spec WFunionAt(u *syntaxUnionQualifier) bool = WFbasic(u.syntaxBasicNode) && errRT(u.syntaxBasicNode) && wf(u.subscripts) && (arr(u.subscripts) == 0 || RO(u.subscripts)) && (forall k {elemAt(u.subscripts, k)} :: off(u.subscripts) <= k && k < off(u.subscripts) + len(u.subscripts) ==> elemAt(u.subscripts, k) != nil && WFsub(elemAt(u.subscripts, k)))
 //@ spec WFrootDef(n *syntaxRootIdentifier) bool = n != nil && height(n) == hgt(n.syntaxBasicNode) && WFbasic(n.syntaxBasicNode)
 //@ spec WFcurrentDef(n *syntaxCurrentRootIdentifier) bool = n != nil && height(n) == hgt(n.syntaxBasicNode) && WFbasic(n.syntaxBasicNode)
 //@ spec WFsingleDef(n *syntaxChildSingleIdentifier) bool = n != nil && height(n) == hgt(n.syntaxBasicNode) && WFbasic(n.syntaxBasicNode) && errRT(n.syntaxBasicNode)
 //@ spec WFwildcardDef(n *syntaxChildWildcardIdentifier) bool = n != nil && height(n) == hgt(n.syntaxBasicNode) && WFbasic(n.syntaxBasicNode) && errRT(n.syntaxBasicNode)
 //@ spec WFunionDef(n *syntaxUnionQualifier) bool = n != nil && height(n) == hgt(n.syntaxBasicNode) && WFunionAt(n)
-//@ spec WFmultiDef(n *syntaxChildMultiIdentifier) bool = n != nil && height(n) == hgt(n.syntaxBasicNode) && WFbasic(n.syntaxBasicNode) && errRT(n.syntaxBasicNode) && (forall k {n.identifiers[k]} :: 0 <= k && k < len(n.identifiers) ==> n.identifiers[k] != nil && WFnode(n.identifiers[k]) && height(n.identifiers[k]) < height(n)) && (n.isAllWildcard ==> WFunionAt(n.unionQualifier) && WFnode(n.unionQualifier) && height(n.unionQualifier) < height(n))
+//@ spec WFmultiDef(n *syntaxChildMultiIdentifier) bool = n != nil && height(n) == hgt(n.syntaxBasicNode) && WFbasic(n.syntaxBasicNode) && errRT(n.syntaxBasicNode) && wf(n.identifiers) && (arr(n.identifiers) == 0 || RO(n.identifiers)) && (forall k {elemAt(n.identifiers, k)} :: off(n.identifiers) <= k && k < off(n.identifiers) + len(n.identifiers) ==> elemAt(n.identifiers, k) != nil && WFnode(elemAt(n.identifiers, k)) && height(elemAt(n.identifiers, k)) < height(n) && (isType(elemAt(n.identifiers, k), *syntaxChildSingleIdentifier) ==> asType(elemAt(n.identifiers, k), *syntaxChildSingleIdentifier) != nil)) && (n.isAllWildcard ==> WFunionAt(n.unionQualifier) && WFnode(n.unionQualifier) && height(n.unionQualifier) < height(n))
 //@ spec WFrecursiveDef(n *syntaxRecursiveChildIdentifier) bool = n != nil && height(n) == hgt(n.syntaxBasicNode) && WFbasic(n.syntaxBasicNode) && errRT(n.syntaxBasicNode) && n.syntaxBasicNode.next != nil
 //@ spec WFfilterDef(n *syntaxFilterQualifier) bool = n != nil && height(n) == hgt(n.syntaxBasicNode) && WFbasic(n.syntaxBasicNode) && errRT(n.syntaxBasicNode) && n.query != nil && WFquery(n.query) && 0 <= qheight(n.query) && qheight(n.query) < height(n)
 //@ spec WFffuncDef(n *syntaxFilterFunction) bool = n != nil && height(n) == hgt(n.syntaxBasicNode) && WFbasic(n.syntaxBasicNode) && errRT(n.syntaxBasicNode) && n.function != nil
@@ -225,7 +221,7 @@ package jsonpath
 //@ interface syntaxNode.retrieve
 //@   requires WFnode(this) && extVal(current)
 //@   include retrieveFrame
-//@   decreases 2*height(this) + 1
+//@   decreases 3*height(this) + 2
 
 //@ interface syntaxNode.isValueGroup
 //@   requires WFnode(this)
@@ -245,19 +241,19 @@ package jsonpath
 
 //@ func (*syntaxBasicNode).retrieveAnyValueNext
 //@   props C03 C04 C05 C06 C20
-//@   decreases 2*hgt(i)
+//@   decreases 3*hgt(i)
 //@   requires WFbasic(i) && extVal(nextSrc)
 //@   include retrieveFrame
 
 //@ func (*syntaxBasicNode).retrieveMapNext
 //@   props C03 C04 C05 C06 C20
-//@   decreases 2*hgt(i)
+//@   decreases 3*hgt(i)
 //@   requires WFbasic(i) && errRT(i)
 //@   include retrieveFrame
 
 //@ func (*syntaxBasicNode).retrieveListNext
 //@   props C03 C04 C05 C06 C20
-//@   decreases 2*hgt(i)
+//@   decreases 3*hgt(i)
 //@   requires WFbasic(i) && 0 <= index && index < len(currentList) && RO(currentList)
 //@   include retrieveFrame
 
@@ -291,3 +287,76 @@ package jsonpath
 //@   props C03 C04 C05 C06 C20
 //@   implements syntaxNode.retrieve
 //@   unfold WFnode(this) ==> WFafuncDef(f)
+
+// ---------------------------------------------------------------------------------------
+// retrieve implementations with loops
+// ---------------------------------------------------------------------------------------
+
+// what every child loop keeps true about the result buffer and the error bookkeeping
+//@ spec bufInv(container *bufferContainer) bool = ownsBuf(container) && (arr(container.result) == old(arr(container.result)) || fresh(container.result)) && len(container.result) >= old(len(container.result)) && (forall i {elemAt(container.result, i)} :: 0 <= i && i < old(len(container.result)) ==> elemAt(container.result, i) == old(elemAt(container.result, i))) && (forall i {elemAt(container.result, i)} :: old(len(container.result)) <= i && i < len(container.result) ==> extVal(elemAt(container.result, i)))
+//@ spec errInv(deepestTextLen int, deepestError errorRuntime) bool = (deepestTextLen != 0 ==> deepestError != nil) && (deepestError != nil ==> errOK(deepestError))
+//@ spec extStack(s []interface{}) bool = forall k {elemAt(s, k)} :: off(s) <= k && k < off(s) + len(s) ==> extVal(elemAt(s, k))
+
+//@ interface syntaxSubscript.getIndexes
+//@   requires WFsub(this) && srcLength >= 0
+//@   ensures inrange: forall k {elemAt(ret, k)} :: off(ret) <= k && k < off(ret) + len(ret) ==> 0 <= elemAt(ret, k) && elemAt(ret, k) < srcLength
+//@   ensures fresh: fresh(ret) && wf(ret)
+
+//@ func (*syntaxChildWildcardIdentifier).retrieve
+//@   props C03 C04 C05 C06 C20
+//@   implements syntaxNode.retrieve
+//@   unfold WFnode(this) ==> WFwildcardDef(i)
+
+//@ func (*syntaxChildWildcardIdentifier).retrieveMap
+//@   props C03 C04 C05 C06 C07 C20
+//@   requires i != nil && WFbasic(i.syntaxBasicNode) && errRT(i.syntaxBasicNode)
+//@   include retrieveFrame
+//@   decreases 3*hgt(i.syntaxBasicNode) + 1
+//@   loop 1 invariant bufInv(container) && errInv(deepestTextLen, deepestError) && ownsKeys(sortKeys) && wf(rangeslice1)
+
+//@ func (*syntaxChildWildcardIdentifier).retrieveList
+//@   props C03 C04 C05 C06 C07 C20
+//@   requires i != nil && WFbasic(i.syntaxBasicNode) && errRT(i.syntaxBasicNode) && RO(srcList)
+//@   include retrieveFrame
+//@   decreases 3*hgt(i.syntaxBasicNode) + 1
+//@   loop 1 invariant bufInv(container) && errInv(deepestTextLen, deepestError)
+
+//@ func (*syntaxChildMultiIdentifier).retrieve
+//@   props C03 C04 C05 C06 C20
+//@   implements syntaxNode.retrieve
+//@   unfold WFnode(this) ==> WFmultiDef(i)
+
+//@ func (*syntaxChildMultiIdentifier).retrieveMap
+//@   props C03 C04 C05 C06 C07 C20
+//@   requires WFmultiDef(i)
+//@   include retrieveFrame
+//@   decreases 3*height(i) + 1
+//@   loop 1 invariant bufInv(container) && errInv(deepestTextLen, deepestError)
+
+//@ func (*syntaxUnionQualifier).retrieve
+//@   props C03 C04 C05 C06 C07 C11 C20
+//@   implements syntaxNode.retrieve
+//@   unfold WFnode(this) ==> WFunionDef(u)
+//@   loop 1 invariant bufInv(container) && errInv(deepestTextLen, deepestError)
+//@   loop 2 invariant bufInv(container) && errInv(deepestTextLen, deepestError) && wf(rangeslice2) && mine(rangeslice2) && arr(rangeslice2) != arr(container.result) && (forall k {elemAt(rangeslice2, k)} :: off(rangeslice2) <= k && k < off(rangeslice2) + len(rangeslice2) ==> 0 <= elemAt(rangeslice2, k) && elemAt(rangeslice2, k) < len(srcArray))
+
+//@ func (*syntaxRecursiveChildIdentifier).retrieve
+//@   props C03 C04 C05 C06 C07 C20
+//@   implements syntaxNode.retrieve
+//@   unfold WFnode(this) ==> WFrecursiveDef(i)
+//@   loop 1 invariant buf: bufInv(container)
+//@   loop 1 invariant errs: errInv(deepestTextLen, deepestError)
+//@   loop 1 invariant stack: wf(targetNodes) && mine(targetNodes) && arr(targetNodes) != arr(container.result)
+//@   loop 1 invariant stackext: extStack(targetNodes)
+//@   loop 2 invariant buf: bufInv(container)
+//@   loop 2 invariant errs: errInv(deepestTextLen, deepestError)
+//@   loop 2 invariant keys: 0 - 1 <= index && index < len(typedNodes) && ownsKeys(sortKeys) && len(poolSlice(sortKeys)) == len(typedNodes)
+//@   loop 2 invariant stack: wf(targetNodes) && mine(targetNodes) && arr(targetNodes) != arr(container.result)
+//@   loop 2 invariant stackext: extStack(targetNodes)
+//@   loop 2 decreases index + 1
+//@   loop 3 invariant buf: bufInv(container)
+//@   loop 3 invariant errs: errInv(deepestTextLen, deepestError)
+//@   loop 3 invariant idx: 0 - 1 <= index && index < len(typedNodes)
+//@   loop 3 invariant stack: wf(targetNodes) && mine(targetNodes) && arr(targetNodes) != arr(container.result)
+//@   loop 3 invariant stackext: extStack(targetNodes)
+//@   loop 3 decreases index + 1
